@@ -32,6 +32,7 @@ func init() {
 			{Name: "setavail-keeps-failnum", File: "bfe_balance/backend/bfe_backend.go", Old: "	if back.avail {\n		back.failNum = 0\n	}", New: "", Expect: "avail-resets-failnum"},
 			{Name: "unlocked-read", File: "bfe_balance/backend/bfe_backend.go", Old: "	back.RLock()\n	failNum := back.failNum\n	back.RUnlock()\n", New: "	failNum := back.failNum\n", Expect: "guarded-by"},
 			{Name: "onsuccess-noop", File: "bfe_balance/backend/bfe_backend.go", Old: "	// reset backend failnum\n	back.ResetFailNum()", New: "	// reset backend failnum", Expect: "onsuccess-reset"},
+			{Name: "close-poll-after-conf-retry", File: "bfe_balance/backend/health_check.go", Old: "		select {\n		case <-c: // backend deleted\n			break loop\n		default:\n		}\n\n		// get the latest conf to do health check\n		checkConf := getCheckConf(cluster)\n		if checkConf == nil {\n			// never come here\n			time.Sleep(time.Second)\n			continue\n		}\n", New: "		// get the latest conf to do health check\n		checkConf := getCheckConf(cluster)\n		if checkConf == nil {\n			// never come here\n			time.Sleep(time.Second)\n			continue\n		}\n\n		select {\n		case <-c: // backend deleted\n			break loop\n		default:\n		}\n", Expect: "close-poll"},
 			{Name: "close-poll-dropped", File: "bfe_balance/backend/health_check.go", Old: "		select {\n		case <-c: // backend deleted\n			break loop\n		default:\n		}\n", New: "		_ = c\n", Expect: "close-poll"},
 		},
 	})
@@ -351,6 +352,32 @@ func runC06(c *core.Ctx) {
 				return false
 			}, func(x ssa.Instruction) bool { return x == probe })
 			c.Check("close-poll", "check:loop", probe.Pos(), bad == nil, "a loop iteration can reach the next probe without polling the backend's close channel: a released backend's checker would run forever")
+			// every cycle of the checker loop (also those that never reach the probe, e.g. the
+			// "no check conf" retry) passes the poll
+			isPoll := func(x ssa.Instruction) bool {
+				switch s := x.(type) {
+				case *ssa.Select:
+					for _, st := range s.States {
+						if strings.Contains(core.Render(st.Chan), "CloseChan(") {
+							return true
+						}
+					}
+				case *ssa.UnOp:
+					return s.Op == token.ARROW && strings.Contains(core.Render(s.X), "CloseChan(")
+				}
+				return false
+			}
+			for _, l := range core.Loops(fn) {
+				if !l.Body[probe.Block()] {
+					continue
+				}
+				h := l.Header.Instrs[0]
+				cyc := core.ReachAvoiding(fn, h, isPoll, func(x ssa.Instruction) bool { return x == h })
+				if isPoll(h) {
+					cyc = nil
+				}
+				c.Check("close-poll", "check:every-cycle", h.Pos(), cyc == nil, "the checker loop has a cycle that does not poll the backend's close channel (e.g. a retry path that `continue`s before the poll): the checker of a released backend never stops on that path")
+			}
 		}
 	}
 	if fn := c.P.Func(pkg, "BfeBackend.CheckAvail"); fn == nil {
